@@ -41,6 +41,8 @@ pub const HOSTS: &[&str] = &[
     "example.com", "www.example.com", "a.b.example.com", "EXAMPLE.COM", "Www.Example.Com", "localhost", "other.test", "unrelated.invalid",
     "127.0.0.1", "10.0.0.1", "[::1]", "[0:0:0:0:0:0:0:1]", "[2001:db8::7]", "my_host.example.com", "exa$mple.com", "a..b", "-dash.example.com",
     "example.com.", "1.2.3", "x", "[fe80::1%25eth0]", "[1:2]", "[::ffff:127.0.0.1]",
+    // user information (with a colon in it) in front of the host: the server name is the host's, not what stands before the first colon
+    "user:pw@example.com", "example.com:secret@localhost", "other.test:x@www.example.com",
 ];
 const PEERS: &[&str] = &["good", "good", "good", "good", "othername", "untrusted", "plain", "close0", "close1", "trunc", "alert", "silent"];
 const ALPN: &[&str] = &["-", "-", "h2", "h11", "both"];
@@ -270,7 +272,9 @@ pub fn run(toks: &[&str]) -> String {
     let (cfg, alpnc, scheme, host, port, kind, alpns) = (toks[0] == "1" || toks[0] == "2", toks[1], toks[2], toks[3], toks[4], toks[5], toks[6]);
     let reconfigured = toks[0] == "2";
     let uri = if port == "-" { format!("{scheme}://{host}/p") } else { format!("{scheme}://{host}:{port}/p") };
-    let stripped = host.strip_prefix('[').and_then(|h| h.strip_suffix(']')).unwrap_or(host);
+    // (the host as `Uri::host` sees it: user information is not part of it)
+    let uri_host = host.rsplit('@').next().unwrap_or(host);
+    let stripped = uri_host.strip_prefix('[').and_then(|h| h.strip_suffix(']')).unwrap_or(uri_host);
     let nv = ServerName::try_from(stripped).is_ok() as u8;
     let built: Option<http::Uri> = if from_parts {
         let auth = if port == "-" { host.to_string() } else { format!("{host}:{port}") };
